@@ -102,6 +102,66 @@ def read_back2(root):
     return out
 
 
+def wrappers_scenario():
+    """Factories and wrappers hand their arguments on, and what one handle stores every other handle reads:
+    a list of (what, expected, observed) judged like the fixture."""
+    import diskcache
+    import pickle as _p
+    from diskcache.djangocache import DjangoCache
+    root = envctl.scratch('wrap')
+    ev = []
+
+    def rec(what, exp, obs):
+        ev.append({'what': what, 'exp': digest(exp), 'obs': digest(obs)})
+    try:
+        fan = diskcache.FanoutCache(os.path.join(root, 'f'), shards=3, disk=diskcache.JSONDisk, disk_compress_level=2, timeout=0.25)
+        sub = fan.cache('sub', timeout=0.5)
+        rec('fanout.cache(timeout=)', 0.5, sub.timeout)
+        rec('fanout.cache disk class', 'JSONDisk', type(sub.disk).__name__)
+        dq = fan.deque('dq', maxlen=3)
+        rec('fanout.deque(maxlen=)', 3, dq.maxlen)
+        rec('fanout.deque eviction policy', 'none', dq.cache.eviction_policy)
+        rec('fanout.deque disk class', 'JSONDisk', type(dq.cache.disk).__name__)
+        ix = fan.index('ix')
+        rec('fanout.index eviction policy', 'none', ix.cache.eviction_policy)
+        rec('fanout.index disk class', 'JSONDisk', type(ix.cache.disk).__name__)
+        ix['k'] = [1, 'x']
+        other = diskcache.Cache(ix.directory, disk=diskcache.JSONDisk)
+        rec('item of fanout.index through a JSONDisk Cache on its directory', [1, 'x'], other.get('k'))
+        other.close()
+        rec('fanout.cache(name) twice is one object', True, fan.cache('sub') is sub)
+        g = _p.loads(_p.dumps(fan))
+        rec('unpickled FanoutCache: shard directories', 3, len([n for n in os.listdir(fan.directory) if n.isdigit()]))
+        rec('unpickled FanoutCache: disk class', 'JSONDisk', type(g.disk).__name__)
+        rec('unpickled FanoutCache: timeout', 0.25, g.timeout)
+        # two live handles: a setting stored through one is what the other (and a later handle) stores over it
+        a, b = diskcache.FanoutCache(os.path.join(root, 'g'), shards=2), diskcache.FanoutCache(os.path.join(root, 'g'), shards=2)
+        a.reset('cull_limit', 0)
+        b.reset('cull_limit', 10)
+        c = diskcache.FanoutCache(os.path.join(root, 'g'), shards=2)
+        rec('reset through a second handle is stored', [10, 10], [sh.cull_limit for sh in (diskcache.Cache(os.path.join(root, 'g', '%03d' % i)) for i in range(2))])
+        rec('reset(key) reads the stored value', 10, a.reset('cull_limit'))
+        for x in (a, b, c):
+            x.close()
+        dj = DjangoCache(os.path.join(root, 'dj'), {'SHARDS': 4, 'DATABASE_TIMEOUT': 0.5, 'OPTIONS': {'size_limit': 2 ** 22, 'cull_limit': 7}})
+        dj.set('k', 1)
+        rec('DjangoCache SHARDS: shard directories', 4, len([n for n in os.listdir(dj.directory) if n.isdigit()]))
+        raw = diskcache.FanoutCache(dj.directory, shards=4)
+        rec('DjangoCache OPTIONS reach the shards', [7, 2 ** 20], [raw._shards[0].cull_limit, int(raw._shards[0].size_limit)])
+        rec('item of DjangoCache through a FanoutCache with the same shards', 1, raw.get(':1:k'))
+        raw.close()
+        sub2 = dj.cache('inner')
+        sub2['z'] = 5
+        rec('DjangoCache.cache(name) persists', 5, diskcache.Cache(sub2.directory)['z'])
+        dj.close()
+        fan.close()
+    except Exception as exc:
+        rec('wrappers scenario ran', 'completed', type(exc).__name__ + ': ' + str(exc)[:80])
+    finally:
+        envctl.rm(root)
+    return ev
+
+
 def _hist(cfg, ops, seed, tid):
     return seqdriver.run_history(cfg, ops, seed, tid)
 
@@ -230,6 +290,18 @@ def run(prop, tier, seed):
         finally:
             envctl.rm(scratch)
     out.notes['fixture_objects_compared'] = total
+    # factories / wrappers / second handles (same judgement: expected vs observed)
+    wev = wrappers_scenario()
+    common.TRACE_FIELDS = ('id', 'ev')
+    verdicts, st, tr = validate_all('FixtureTrace.tla', 'FixtureTrace.cfg', [{'id': 1, 'ev': wev}])
+    out.states += st
+    out.transitions += tr
+    out.traces += 1
+    out.events += len(wev)
+    if not verdicts[1]['ok']:
+        bad = [e['what'] for e in wev if e['exp'] != e['obs']]
+        out.violation('C18 arguments or stored settings do not reach the object behind a factory / wrapper / second handle: %s' % bad[:6], {'differences': [e for e in wev if e['exp'] != e['obs']]})
+    out.notes['wrapper_facts_compared'] = len(wev)
     out.samples.append({'cfg': traces[0]['cfg'], 'ops': [[e['op'], e['a'], e['ret']] for e in traces[0]['ev'][:14]]})
     out.notes['lifecycle_events'] = sum(1 for t in traces for e in t['ev'] if e['op'] in ('reopen', 'pickle', 'close', 'via', 'settings'))
     out.level = 'model_checking'
